@@ -802,7 +802,8 @@ impl Runner {
                 Some(r) => {
                     let rc = (r.opt.map(|o| (o.0 as u16) << 4).unwrap_or(0)) | r.rc_low as u16;
                     let s = format!(
-                        "reply rc={} id={} op={} rd={} cd={} aa={} ra={} q={} opt={} log={}",
+                        "reply qr={} rc={} id={} op={} rd={} cd={} aa={} ra={} q={} opt={} log={}",
+                        b(r.qr),
                         rc,
                         r.id,
                         r.op,
